@@ -4,6 +4,21 @@ import os, subprocess, tempfile, shutil, hashlib, time, sys
 REPO = os.environ.get('VERIF_REPO', '/repo')
 CRATE = os.path.join(REPO, 'jmespath')
 VERIF = os.path.dirname(os.path.dirname(os.path.abspath(__file__)))
+EVIDENCE_DIR = os.environ.get('VERIF_EVIDENCE_DIR') or os.path.join(VERIF, 'evidence')
+
+def crate_copy(name):
+    """/verif/<name> (replay | kani) as it is when the repository under test is /repo; for another tree (VERIF_REPO, used only to
+    evaluate seeded changes in scratch worktrees) a scratch copy whose path dependency points there."""
+    src = os.path.join(VERIF, name)
+    if os.path.realpath(REPO) == '/repo': return src
+    import hashlib, shutil
+    dst = os.path.join(os.environ.get('VERIF_SCRATCH') or '/var/tmp', 'jmverif-' + name + '-' + hashlib.sha1(REPO.encode()).hexdigest()[:10])
+    os.makedirs(os.path.join(dst, 'src'), exist_ok=True)
+    for f in ['Cargo.toml', 'Cargo.lock'] + ['src/' + x for x in os.listdir(os.path.join(src, 'src'))]:
+        txt = open(os.path.join(src, f)).read()
+        if f == 'Cargo.toml': txt = txt.replace('/repo/jmespath', CRATE)
+        if not os.path.exists(os.path.join(dst, f)) or open(os.path.join(dst, f)).read() != txt: open(os.path.join(dst, f), 'w').write(txt)
+    return dst
 
 def scratch_dir(prefix='jmverif-'):
     base = os.environ.get('VERIF_SCRATCH') or os.environ.get('TMPDIR') or '/var/tmp'
